@@ -71,7 +71,7 @@ def generate(seed, tier):
             base = lang.render(g.program(), 0)
             if ro.random() < 0.6:
                 bk, text = badsrc.make_bad(S['faults'], base)
-                if bk not in ('premature_end', 'unbalanced_open', 'unbalanced_close', 'illegal_char', 'unterminated_string', 'reserved_word'):
+                if bk not in ('premature_end', 'unbalanced_open', 'unbalanced_close', 'illegal_char', 'unterminated_string', 'reserved_word', 'opener'):
                     continue        # only texts that surely fail to parse (nothing of them may run)
                 ops.append({'op': 'bad', 'src': text, 'space': si})
             else:
